@@ -271,36 +271,47 @@ impl Drop for Nesting<'_> {
 }
 
 impl LocalNode {
+    /// Runs `f` with a node claimed just for that one call (and sent to cooldown right after).
+    fn with_tmp_node<R, F: FnOnce(&LocalNode) -> R>(f: F) -> R {
+        let tmp_node = LocalNode {
+            node: Cell::new(Some(Node::get())),
+            fast: FastLocal::default(),
+            helping: HelpingLocal::default(),
+            depth: Cell::new(0),
+            discard: Cell::new(false),
+        };
+        f(&tmp_node)
+        // Drop of tmp_node -> sends the node we just used into cooldown.
+    }
+
     #[cfg(not(feature = "experimental-thread-local"))]
     pub(crate) fn with<R, F: FnOnce(&LocalNode) -> R>(f: F) -> R {
         let f = Cell::new(Some(f));
-        THREAD_HEAD
-            .try_with(|head| {
-                if head.node.get().is_none() {
-                    head.node.set(Some(Node::get()));
-                }
-                let f = f.take().unwrap();
-                let _nesting = Nesting::enter(head);
-                f(head)
-            })
+        let done = THREAD_HEAD.try_with(|head| {
+            if head.discard.get() {
+                // The generation has wrapped around in some frame below us and the node is going
+                // to be given up once the outermost frame returns. No new transaction may start
+                // on it until then (it would re-use generations the node has already seen, with
+                // no cooldown in between), so this (nested) frame gets a node of its own.
+                return None;
+            }
+            if head.node.get().is_none() {
+                head.node.set(Some(Node::get()));
+            }
+            let f = f.take().unwrap();
+            let _nesting = Nesting::enter(head);
+            Some(f(head))
+        });
+        match done {
+            Ok(Some(result)) => result,
             // During the application shutdown, the thread local storage may be already
             // deallocated. In that case, the above fails but we still need something. So we just
             // find or allocate a node and use it just once.
             //
             // Note that the situation should be very very rare and not happen often, so the slower
             // performance doesn't matter that much.
-            .unwrap_or_else(|_| {
-                let tmp_node = LocalNode {
-                    node: Cell::new(Some(Node::get())),
-                    fast: FastLocal::default(),
-                    helping: HelpingLocal::default(),
-                    depth: Cell::new(0),
-                    discard: Cell::new(false),
-                };
-                let f = f.take().unwrap();
-                f(&tmp_node)
-                // Drop of tmp_node -> sends the node we just used into cooldown.
-            })
+            _ => Self::with_tmp_node(f.take().unwrap()),
+        }
     }
 
     #[cfg(feature = "experimental-thread-local")]
@@ -312,11 +323,21 @@ impl LocalNode {
             depth: Cell::new(0),
             discard: Cell::new(false),
         });
+        if thread_head.discard.get() {
+            // See above.
+            return Self::with_tmp_node(f);
+        }
         if thread_head.node.get().is_none() {
             thread_head.node.set(Some(Node::get()));
         }
         let _nesting = Nesting::enter(thread_head);
         f(&thread_head)
+    }
+
+    /// The generation wrapped around while this frame was running; the node must not be used
+    /// for another transaction.
+    pub(crate) fn discarded(&self) -> bool {
+        self.discard.get()
     }
 
     /// Creates a new debt.
